@@ -65,6 +65,7 @@ fn main() {
         "C04" => dispatch(props::c04::EditProp(props::c04::Which::C04, Default::default()), &cfg, &replay),
         "C05" => dispatch(props::c04::EditProp(props::c04::Which::C05, Default::default()), &cfg, &replay),
         "C06" => dispatch(props::c06::C06, &cfg, &replay),
+        "C07" => dispatch(props::c07::C07, &cfg, &replay),
         "C09" => dispatch(props::c09::C09, &cfg, &replay),
         _ => {
             eprintln!("verif: unknown property {}", id);
